@@ -6,7 +6,6 @@ import (
 	"go/constant"
 	"go/types"
 	"math/big"
-	"strconv"
 	"strings"
 )
 
@@ -266,9 +265,26 @@ func c18Exact128(v constant.Value) bool {
 func c18StrRepr(x string) string {
 	if len(x) > 4096 {
 		h := sha1.Sum([]byte(x))
-		return fmt.Sprintf("sha1:%x:%d", h, len(x))
+		x = fmt.Sprintf("sha1:%x:%d", h, len(x))
 	}
-	return strconv.QuoteToASCII(x)
+	return c18Quote(x)
+}
+
+// c18Quote is Extract/Decimal.v print_str: printable ASCII other than the quote and the backslash stands for itself,
+// every other byte is written \xHH.
+func c18Quote(x string) string {
+	var b strings.Builder
+	b.WriteByte('"')
+	for i := 0; i < len(x); i++ {
+		c := x[i]
+		if c >= 32 && c < 127 && c != '"' && c != '\\' {
+			b.WriteByte(c)
+		} else {
+			fmt.Fprintf(&b, "\\x%02x", c)
+		}
+	}
+	b.WriteByte('"')
+	return b.String()
 }
 
 func c18CVal(v constant.Value) string {
@@ -276,7 +292,7 @@ func c18CVal(v constant.Value) string {
 	case constant.Bool:
 		return "(CBool " + coqBool(constant.BoolVal(v)) + ")"
 	case constant.String:
-		return "(CString " + coqStr(c18StrRepr(constant.StringVal(v))) + ")"
+		return "(CString (bytes_of " + coqStr(c18StrRepr(constant.StringVal(v))) + "))"
 	case constant.Int:
 		z, _ := new(big.Int).SetString(v.ExactString(), 10)
 		return "(CInt " + c18Z(z) + ")"
